@@ -40,7 +40,8 @@ SCEN = ["params_value", "params_vary", "params_minmax", "params_expr",
         "params_max", "params_min", "params_tiny", "range_x_tiny",
         "range_x", "method_kws", "prep_list", "prep_options",
         "prep_list_via_fit", "returned_params", "returned_params_unpassed",
-        "prep_list_unpassed", "force_array", "rater_arrays", "model_args"]
+        "prep_list_unpassed", "force_array", "rater_arrays", "model_args",
+        "rate_names_list", "rate_training_set_arrays"]
 
 
 def shards(tier):
@@ -110,9 +111,9 @@ class Guard:
         return out
 
 
-def base_curve(rng):
+def base_curve(rng, npts=(200, 400)):
     spec = fitlab.draw_curve_spec(rng, models=["hertz_para", "hertz_cone"],
-                                  npts=(200, 400), noise_snr=(100, 30),
+                                  npts=npts, noise_snr=(100, 30),
                                   with_tip=False)
     rs = np.random.default_rng(spec["noise_seed"])
     span = float(gen.ref.force(spec["model"], np.array([spec["zmin"]]),
@@ -194,7 +195,9 @@ def edit_params(rng, p, what):
 
 def scenario(rec, rng, cid):
     sc = SCEN[int(rng.integers(len(SCEN)))]
-    spec, data = base_curve(rng)
+    # (curves with < 600 approach points are rated 0 whatever the rater)
+    spec, data = base_curve(rng, (700,) if sc.startswith("rate_") else
+                            (200, 400))
     case = {"id": cid, "scenario": sc, "curve": spec}
     g = Guard(rec, case)
     pipe = ["compute_tip_position", "correct_force_offset",
@@ -386,6 +389,52 @@ def scenario(rec, rng, cid):
                       "initial parameters handed out after the edit differ "
                       "between the twins", case)
         rec.evaluated(dg=(sc, what, kw, spec))
+    elif sc in ("rate_names_list", "rate_training_set_arrays"):
+        # rate_quality(names=list, training_set=(X, y)): in-place edits of
+        # these objects between two calls must be noticed
+        from nanite.rate.rater import IndentationRater
+        a, b = twins()
+        for t in (a, b):
+            t.apply_preprocessing(list(pipe))
+            t.fit_model(model_key=spec["model"])
+        allc = IndentationRater.get_feature_names(which_type="continuous")
+        names = [allc[i] for i in rng.permutation(len(allc))[:5]] \
+            + ["feat_bin_size"]
+        reg = ["Extra Trees", "Decision Tree"][int(rng.integers(2))]
+        if sc == "rate_names_list":
+            n0 = list(names)
+            ra = g.call("rate_quality", a.rate_quality, regressor=reg,
+                        names=names)
+            rb = b.rate_quality(regressor=reg, names=list(n0))
+            names.pop(int(rng.integers(3)))         # in-place edit
+            n1 = list(names)
+            ra2 = g.call("rate_quality", a.rate_quality, regressor=reg,
+                         names=names)
+            rb2 = b.rate_quality(regressor=reg, names=list(n1))
+            case["edit"] = {"before": n0, "after": n1}
+        else:
+            X, y = IndentationRater.load_training_set(names=names)
+            X0, y0 = X.copy(), y.copy()
+            ts = (X, y)
+            ra = g.call("rate_quality", a.rate_quality, regressor=reg,
+                        names=list(names), training_set=ts)
+            rb = b.rate_quality(regressor=reg, names=list(names),
+                                training_set=(X0.copy(), y0.copy()))
+            y[:] = np.clip(10 - y, 0, 10)           # in-place edit
+            ts1 = (X.copy(), y.copy())
+            ra2 = g.call("rate_quality", a.rate_quality, regressor=reg,
+                         names=list(names), training_set=ts)
+            rb2 = b.rate_quality(regressor=reg, names=list(names),
+                                 training_set=ts1)
+            case["edit"] = "training responses reversed in place"
+        rec.event("twin states compared", 2)
+        rec.check(ra == rb, "aliasing/%s/after-first-call" % sc,
+                  "ratings differ before any edit: %r vs %r" % (ra, rb), case)
+        rec.check(ra2 == rb2, "aliasing/%s/after-second-call" % sc,
+                  "after the in-place edit the twin re-using the object is "
+                  "rated %r, the twin given fresh copies %r (first call %r)"
+                  % (ra2, rb2, ra), case)
+        rec.evaluated(dg=(sc, reg, names, spec))
     elif sc == "force_array":
         from nanite import poc
         force = np.array(data["force"], copy=True)
